@@ -1,5 +1,9 @@
 import Xp.Drv.C01
 import Xp.Drv.C09
+import Xp.Drv.C06
+import Xp.Drv.C14
+import Xp.Drv.C16
+import Xp.Drv.C18
 namespace Xp.C02
 open Xp.IOx
 /-- C02 scenarios are wrapped: {"site": id, "scn": scenario of that site's model}. -/
@@ -7,5 +11,9 @@ def handler : Handler := fun w =>
   match str w "site" with
   | "C01" => Xp.C01.handler (obj w "scn")
   | "C09" => Xp.C09.handler (obj w "scn")
+  | "C06" => Xp.C06.handler (obj w "scn")
+  | "C14" => Xp.C14.handler (obj w "scn")
+  | "C16" => Xp.C16.handler (obj w "scn")
+  | "C18" => Xp.C18.handler (obj w "scn")
   | s => .error s!"unknown site {s}"
 end Xp.C02
